@@ -115,12 +115,13 @@ func errValueKind(v ssa.Value, at *ssa.BasicBlock, depth int) RetKind {
 			if k == -1 {
 				k = ek
 			} else if k != ek {
-				return RetUnknown
+				k = RetUnknown
 			}
 		}
-		if k >= 0 {
+		if k >= 0 && k != RetUnknown {
 			return k
 		}
+		// undetermined from the incoming values: a dominating nil test on the phi itself may still decide
 	case *ssa.UnOp:
 		// load of a package-level error variable (sentinel errors are non-nil)
 		if x.Op == token.MUL {
